@@ -1326,9 +1326,11 @@ class P(Prop):
         path, used = x["path"], x["edges"]
         if not path or path[0] != s or path[-1] != t:
             return "path %s does not go from %d to %d" % (path, s, t), None
+        zmsg = None          # reported after the planimetric checks (a displaced vertex is better described by those)
         for (px, py), z in zip(x["xy"], x.get("z", [])):
             if Fraction(z) != alt(Fraction(px), Fraction(py)):
-                return "the vertex (%s, %s) of the returned geometry has altitude %s, every vertex and node there was given %s" % (px, py, z, nc.tok(alt(Fraction(px), Fraction(py)))), None
+                zmsg = "the vertex (%s, %s) of the returned geometry has altitude %s, every vertex and node there was given %s" % (px, py, z, nc.tok(alt(Fraction(px), Fraction(py))))
+                break
         if len(used) != len(path) - 1:
             return "path %s has %d recorded edges" % (path, len(used)), None
         total = 0
@@ -1354,7 +1356,7 @@ class P(Prop):
             # target's position
             if not got or got[-1] != list(pos[t]):
                 return "geometry %s does not end at the target's position %s" % (x["xy"], pos[t]), None
-            return None, total
+            return zmsg, (None if zmsg else total)
         ok = False
         for choice in itertools.islice(itertools.product(*options), 64):
             want = [list(pos[s])]
@@ -1368,7 +1370,7 @@ class P(Prop):
                 x["xy"], path, used, want), None
         if got[0] != list(pos[s]) or got[-1] != list(pos[t]):
             return "geometry %s does not start at the source's position %s and end at the target's %s" % (x["xy"], pos[s], pos[t]), None
-        return None, total
+        return zmsg, (None if zmsg else total)
 
     def check_pair(self, case, view, d, s, t, x):
         """x returned for (s,t), reachable, search complete for t: walk, optimal, geometry chained"""
